@@ -96,6 +96,15 @@ def generate(seed, tier):
         q = [s, p, o, gr]
         if q not in quads:
             quads.append(q)
+    if g.chance(0.3):
+        # an rdf:List (the syntaxes have abbreviations for it: ( ... ) in Turtle/TriG, @list in JSON-LD), in some graph of the dataset
+        gr = g.choice([None] + gnames) if quad else None
+        members = [g.choice([u("C"), u("s"), ["l", "7", None, XSD + "integer"], ["l", g.pick(STRINGS[:8]), None, None], ["l", "x", "en", None]]) for _ in range(g.randint(1, 3))]
+        cells = [["b", "l%d" % (i + 1)] for i in range(len(members))]
+        quads.append([g.pick([x for x in subs if x[0] == "u"]), g.pick([x for x in preds if not x[1].endswith("type")]), cells[0], gr])
+        for i, m in enumerate(members):
+            quads.append([cells[i], ["u", writers.RDF + "first"], m, gr])
+            quads.append([cells[i], ["u", writers.RDF + "rest"], cells[i + 1] if i + 1 < len(cells) else ["u", writers.RDF + "nil"], gr])
     modes = list(MODES)
     g.shuffle(modes)
     nm = g.randint(6, len(modes))
@@ -153,7 +162,8 @@ def make_doc(cfg):
         return writers.WRITERS[fmt](quads, random.Random(cfg["style_seed"]))
     if _own_xml(cfg):
         return writers.write_rdfxml([q for q in quads if q[3] is None], random.Random(cfg["style_seed"]), ext_base=xb)
-    if xb and fmt == "json-ld":
+    if fmt == "json-ld" and (xb or cfg["style_seed"] % 2 == 0):
+        # (half of the JSON-LD documents come from the independent writer - expanded form, @graph, @list - the rest from rdflib)
         return writers.write_jsonld(quads, random.Random(cfg["style_seed"]), ext_base=xb)
     ds = Dataset()
     for s, p, o, g in quads:
@@ -432,7 +442,7 @@ def execute(trace, ctx):
 
     try:
         base = parse_with({"data": doc, "format": fmt})
-        if fmt in OWN or _own_xml(cfg) or (cfg.get("publicid") and fmt == "json-ld"):
+        if fmt in OWN or _own_xml(cfg) or (fmt == "json-ld" and (cfg.get("publicid") or cfg["style_seed"] % 2 == 0)):
             # intended graph: default-graph triples land in the Dataset's default graph
             D = set()
             for s, p, o, g in cfg["quads"] if fmt != "xml" else [q for q in cfg["quads"] if q[3] is None]:
